@@ -12,11 +12,12 @@ From Orca Require Import Util Flat Lowering CheckLow Tree TreeLower WasmP SemPro
    Scope (partial): no semantic-after on branch instructions ([nbl]); function entry/exit are C17;
    type validity of the output is checked by the real validator on every sample, not proved. *)
 Theorem C16_lowered_body_simulates_spec :
-  forall (ftypes : list (nat * nat)) (F : nat -> flags),
+  forall (ftypes : list (nat * nat)) (F : nat -> flags) (X : list fop),
+    pcode X ->     (* X: function-exit probes, spliced before return / unreachable / throw (C17); [] when there are none *)
     (forall i, pcode (bef F i) /\ pcode (aft F i) /\ pcode (be_ F i) /\ pcode (bx_ F i) /\ pcode (sa_ F i)) ->
     forall fuel body c ob,
-      exec ftypes F [] true fuel false body c = ob -> ob <> OFuel -> nbl F body ->
-      exists fuel', exec ftypes (fun _ => no_flags) [] false fuel' false (flat_map (lower F) body) c = ob.
+      exec ftypes F X true fuel false body c = ob -> ob <> OFuel -> nbl F body ->
+      exists fuel', exec ftypes (fun _ => no_flags) [] false fuel' false (flat_map (lower F X) body) c = ob.
 Proof. exact sim_closed. Qed.
 Print Assumptions C16_lowered_body_simulates_spec.
 
